@@ -142,10 +142,7 @@ func Discharge(cfg *SolverCfg, obls []*Obligation) {
 			defer wg.Done()
 			defer func() { <-sem }()
 			// a conjunctive goal is proved conjunct by conjunct (each gets its own skolemisation and hints)
-			goals := []*Term{o.Goal}
-			if o.Goal.Op == "and" {
-				goals = o.Goal.Args
-			}
+			goals := splitGoal(o.Goal)
 			o.Status = "discharged"
 			for gi, goal := range goals {
 				as, g := withHints(o.Assump, goal)
@@ -158,8 +155,11 @@ func Discharge(cfg *SolverCfg, obls []*Obligation) {
 					ground = append(ground, t)
 				}
 				if len(ground) < len(as) && !containsQuant(g) {
-					qa := Query(ground, g, false)
+					qa := QueryGround(ground, g)
 					aa := solveGround(cfg, qa)
+					if d := os.Getenv("GVC_DUMPGROUND"); d != "" && aa.status != "unsat" {
+						os.WriteFile(fmt.Sprintf("%s/ground_%d_%d.smt2", d, o.Path, gi+1), []byte(qa), 0o644)
+					}
 					if aa.ms > 1500 && os.Getenv("GVC_SLOW") != "" {
 						fmt.Printf("  slowground %s [%d/%d] %dms %s size=%d\n", o.Name, gi+1, len(goals), aa.ms, aa.status, len(qa))
 					}
@@ -233,12 +233,6 @@ func CheckSat(cfg *SolverCfg, assump []*Term) solverAnswer {
 			ground = append(ground, t)
 		}
 	}
-	if !hasQ {
-		a := runSolver(context.Background(), "z3-new", file, 3*time.Second)
-		if a.status == "sat" || a.status == "unsat" {
-			return a
-		}
-	}
 	// quantified preconditions: satisfiability of the quantifier-free part (Ref constructors left free)
 	gq := Query(ground, nil, false)
 	gq = stripQuantifiedAsserts(gq)
@@ -289,4 +283,28 @@ func stripQuantifiedAsserts(q string) string {
 		out = append(out, l)
 	}
 	return strings.Join(out, "\n")
+}
+
+
+// splitGoal breaks a goal into conjuncts, also below implications: A => (B && C) becomes A => B, A => C.
+func splitGoal(g *Term) []*Term {
+	switch g.Op {
+	case "and":
+		var out []*Term
+		for _, a := range g.Args {
+			out = append(out, splitGoal(a)...)
+		}
+		return out
+	case "=>":
+		sub := splitGoal(g.Args[1])
+		if len(sub) == 1 {
+			return []*Term{g}
+		}
+		var out []*Term
+		for _, c := range sub {
+			out = append(out, Implies(g.Args[0], c))
+		}
+		return out
+	}
+	return []*Term{g}
 }
